@@ -6,6 +6,8 @@ ALL = ["C%02d" % i for i in range(1, 21)]
 BASE_OFF = "cd /repo && env -u ASCMHL_VERIF /venv/bin/python -m pytest -ra -q -p no:cacheprovider --timeout=900 --continue-on-collection-errors"
 T = "in-process CliRunner on tmpfs as accelerator, every alarm re-run in one fresh subprocess per command; CPython, hashlib, xxhash, lxml/libxml2 trusted; bounds and alphabets as listed in the evidence file"
 CHECKS = {
+ "C15": ("E3", "fault_enumeration", "exhaustive crash-point enumeration on the logged write history of the real create (every log prefix, torn last write), recovery by the real commands",
+         "One uninterrupted create per scenario is executed with a write-logging seam (cross-checked against audit events and by replaying the log); every prefix of the log, with the last write torn at several (thorough: all) positions, is materialised as a crash state and recovered with info, verify and create; old manifests, chain entries, visibility of partial files, exit codes (must equal the answer before or after the completed run) and the C06 relation after recovery are judged.", "4 C15"),
  "C05": ("E3", "fault_enumeration", "exhaustive enumeration of tamper faults (every manifest x edit kind x position) x every history-reading command on the real code",
          "For flat and nested (2 and 3 level) histories every manifest listed in any chain is flipped / grown / shrunk / truncated at enumerated positions (thorough: a bit flip at every byte), gets a newline appended or is removed, and every chain file is removed; each of 12 history-reading commands must answer with exactly 31 / 33 / 32 and leave a byte- and metadata-identical tree.", "4 C05"),
  "C16": ("E2", "exploration", "exhaustive enumeration of the finite product zone x now x mtime x size on the real code under a TZ + virtual-clock seam",
